@@ -99,9 +99,9 @@ def _c17_emplace(q):
 
 def c20(q):
     return _emplace(q, "cases = (defaultable shape, buffer length needed..needed+2*ALIGN+, two different garbage fills, tail/island). Oracle: default_in_place succeeds, reads back the model default "
-                    "(zero / empty containers / field-wise / #[default] variant), validates, size() == minimal extent of that state, non-padding bytes identical for both garbage fills and equal to the reference image. "
+                    "(zero / empty containers / field-wise / #[default] variant), validates, size() == minimal extent of that state, non-padding bytes identical for both garbage fills and equal to the reference image; for sized types the value read back equals <T as Default>::default(). "
                     "Distinct = distinct (shape, buffer class).",
-                    ["c20:compared"])
+                    ["c20:compared", "c20:compared-with-Default::default"])
 
 
 def c04(q):
